@@ -349,6 +349,7 @@ def assemble(unit, index, expanded_name='expanded.rs', probe=None, lenient=False
             text = rw.rule_r4_assert_eq(text, fired)
             text = rw.rule_r4p_debug(text, fired)
             text = rw.rule_r6_idioms(text, fired)
+            text = rw.rule_r10_mut_self(text, fired)
             text = rw.apply_substs(text, unit.substs, fired)
             text = rw.rule_r3_unchecked(text, fired, unit.slice_recv, unit.slice_recv_ref)
             text = rw.apply_substs(text, fs.fsubst, fired)
